@@ -87,9 +87,9 @@ pub fn driver_facts(trace: &[Value]) -> (i64, i64, i64) {
                 after += 1;
             }
         } else if drained.contains(&key)
-            && (ev == "Tx" || (ev == "Timeout" && e["before"] != -1) || (ev == "AppEvent" && e["e"]["k"] != "ConnectionLost"))
+            && (ev == "Tx" || (ev == "AppEvent" && e["e"]["k"] != "ConnectionLost"))
         {
-            // ... as is a timer that is still armed (poll_timeout must be None once drained)
+            // (a timer left armed is not output: quinn stops only the close timer when it drains)
             after += 1;
         }
         if ev == "Spurious" && e["same"] == false {
